@@ -181,6 +181,7 @@ def _run(tape, out, elfi, root):
         return wl
 
     last_wl = None
+    tainted = set()       # batch indices whose pool entries were written by an F3 batch
     prev_run = [None]
     step = -1
     while step + 1 < nsteps or forced_ops:
@@ -246,10 +247,12 @@ def _run(tape, out, elfi, root):
             saved_held[0] = None
             if op == 'clear_pool':
                 pool.clear()
+                tainted.clear()
                 held = {s_: 0 for s_ in held}
             else:
                 last = max(held.values()) - 1
                 pool.remove_batch(last)
+                tainted.discard(last)
                 held = {s_: (n_ - 1 if n_ - 1 == last else n_) for s_, n_ in held.items()}
             held_max = max(held.values()) if held else 0
             for s_ in pool.stores:
@@ -495,10 +498,19 @@ def _run(tape, out, elfi, root):
         # F3's structural predicate, per batch: the pool supplied ALL parameters of a batch but
         # not the simulator (the simulator has no store, or - after add_store('sim') on a pool
         # in use - its store does not reach that far yet)
-        f3_shape = params_stored and any(
-            info['held'] and 'sim' not in info['held'] and
-            all(p in info['held'] for p in cur_spec['params'])
-            for info in run_.req_info.values())
+        f3_reqs = {q for q, info in run_.req_info.items()
+                   if info['held'] and 'sim' not in info['held'] and
+                   all(p in info['held'] for p in cur_spec['params'])}
+        # batches in which exactly that happened (the simulator re-ran on pool-supplied
+        # parameters); what such a batch writes into the pool is the finding's output, and a later
+        # run that is served those entries inherits it - the history, not the single run, is
+        # what the known finding identifies
+        f3_bis = {run_.req_info[c['req']]['bi'] for c in sp.REC.calls
+                  if c['node'] == 'sim' and c['req'] in f3_reqs}
+        served_tainted = any(info['held'] and info['bi'] in tainted
+                             for info in run_.req_info.values())
+        f3_shape = (params_stored and bool(f3_reqs)) or served_tainted
+        tainted |= f3_bis
         # ---- same-as-pool-free
         if res is None or ref_res is None:
             ea = type(ref_run.errors[-1]).__name__ if ref_res is None and ref_run.errors else None
@@ -539,7 +551,7 @@ def _run(tape, out, elfi, root):
                 reran.add(c['node'])
         if d and not control:
             sig = ''
-            if f3_shape and 'sim' in reran:
+            if (f3_shape and 'sim' in reran) or served_tainted:
                 sig = 'params-stored+stochastic-node-reran'
             out.violate('same-as-pool-free', sig, step=step, diff=d, stores=stored_now,
                         method=wl['method'], reran=sorted(reran))
@@ -601,7 +613,7 @@ def _run(tape, out, elfi, root):
                         # was missing from a pool-hit batch is stored, but the returned rows
                         # happen to come from other batches
                         sig = 'params-stored+stochastic-node-reran' \
-                            if (f3_shape and 'sim' in reran) else 'value'
+                            if ((f3_shape and 'sim' in reran) or bi in tainted) else 'value'
                         out.violate('pool-content', sig, store=s, batch_index=bi, step=step,
                                     stores=stored_now, reran=sorted(reran))
                         return
